@@ -19,10 +19,27 @@ for d in $(ls seeded | grep "^C" | sort); do
   st=$(python3 -c "import json;m=json.load(open('seeded/$d/meta.json'));print(m.get('rebased',{}).get('result','?'))")
   sum=$(python3 -c "import json;m=json.load(open('seeded/$d/meta.json'));print(m.get('summary','').replace('|','/').replace('\n',' ')[:160])")
   needs=$(python3 -c "import json;m=json.load(open('seeded/$d/meta.json'));print(m.get('needs','').replace('|','/').replace('\n',' ')[:160])")
-  if [ "$st" != "ok" ]; then echo "| $d | $sum | $needs | not applicable at final HEAD: $st | |" >> $out; continue; fi
-  r=$(tools/seedtest.sh /verif/seeded/$d/patch.diff $prop quick 2>&1)
-  verdict=$(echo "$r" | grep -E "^(DETECTED|MISSED|MACHINERY|PATCH)" | head -1 | cut -d' ' -f1)
-  cls=$(echo "$r" | grep "site=" | head -1 | sed 's/ cases=.*//' | sed 's/^ *//' | cut -c1-150 | sed 's/|/\//g')
+  also=$(python3 -c "import json;m=json.load(open('seeded/$d/meta.json'));print(' '.join(m.get('also_check',[])))")
+  case "$st" in ok*|"?") ;; *)
+    if [ -z "$also" ]; then echo "| $d | $sum | $needs | no longer breaks $prop at the final HEAD: $st | |" >> $out; continue; fi;;
+  esac
+  verdict=""; cls=""
+  case "$st" in ok*|"?")
+    r=$(tools/seedtest.sh /verif/seeded/$d/patch.diff $prop quick 2>&1)
+    verdict=$(echo "$r" | grep -E "^(DETECTED|MISSED|MACHINERY|PATCH)" | head -1 | cut -d' ' -f1)
+    cls=$(echo "$r" | grep "site=" | head -1 | sed 's/ cases=.*//' | sed 's/^ *//' | cut -c1-150 | sed 's/|/\//g');;
+  *) verdict="masked-for-$prop($st)";;
+  esac
+  if [ "$verdict" != "DETECTED" ]; then
+    for q in $also; do
+      r=$(tools/seedtest.sh /verif/seeded/$d/patch.diff $q quick 2>&1)
+      v2=$(echo "$r" | grep -E "^(DETECTED|MISSED|MACHINERY|PATCH)" | head -1 | cut -d' ' -f1)
+      if [ "$v2" = "DETECTED" ]; then
+        verdict="$verdict; DETECTED by $q"
+        cls=$(echo "$r" | grep "site=" | head -1 | sed 's/ cases=.*//' | sed 's/^ *//' | cut -c1-150 | sed 's/|/\//g')
+      fi
+    done
+  fi
   echo "| $d | $sum | $needs | $verdict | $cls |" >> $out
   echo "$d $verdict"
 done
